@@ -38,7 +38,12 @@ func segDigest(root pfs.FileSystem, dir string) string {
 
 // Tear simulates an unclean shutdown after a Close: the lock file is recreated and garbage is
 // appended to the newest segment; then the directory is recovered (C17, C18).
-func (r *Runner) Tear(garbage []byte) error {
+// cut > 0 first removes that many bytes from the end of the newest segment (a torn tail that lost
+// data): what the recovering Open must then find is what the independent decoder replays from the
+// files.  keep > 0 truncates the newest segment to keep bytes instead, i.e. inside its 512-byte header:
+// no property says what Open does with that, the outcome only has to be the same on every FileSystem,
+// and the recording ends there.
+func (r *Runner) Tear(garbage []byte, cut, keep int) error {
 	s := r.S
 	if err := s.Do(Op{Op: "close"}); err != nil {
 		return err
@@ -56,6 +61,57 @@ func (r *Runner) Tear(garbage []byte) error {
 			best, bestSeq = n, sq
 		}
 	}
+	damaged, headerCut := false, false
+	if best != "" && (cut > 0 || keep > 0) {
+		sf, err := root.OpenFile(filepath.Join(dir, best), os.O_RDWR, 0640)
+		if err != nil {
+			return err
+		}
+		st, _ := sf.Stat()
+		size := st.Size() - int64(cut)
+		if size < 512 {
+			size = 512
+		}
+		if keep > 0 && keep < 512 {
+			size, headerCut = int64(keep), true
+		}
+		if size < st.Size() {
+			if err := sf.Truncate(size); err != nil {
+				return err
+			}
+			damaged = true
+		}
+		sf.Close()
+	}
+	if headerCut && damaged {
+		s.R.Emit(Ev{"e": "note", "what": fmt.Sprintf("newest segment truncated to %d bytes (inside its header); outcome compared across file systems only", keep)})
+		db, obs := OpenObserved(s.Cfg, root, dir, s.Universe)
+		out, _ := json.Marshal(obs.Event("damaged_header_opened"))
+		if obs.Err != "" {
+			out = []byte("ERR " + obs.Err)
+			if s.Digest {
+				out = []byte("ERR " + ErrKind(fmt.Errorf("%s", obs.Err)))
+			}
+		}
+		s.mu.Lock()
+		s.nres++
+		s.resHash = s.resHash*1099511628211 ^ fnv64(out)
+		s.mu.Unlock()
+		shown := out
+		if len(shown) > 300 {
+			shown = shown[:300]
+		}
+		s.R.Emit(Ev{"e": "note", "what": "outcome: " + string(shown)})
+		if db != nil {
+			db.Close()
+		}
+		s.DB = nil
+		return fmt.Errorf("tear: header cut, the run ends here")
+	}
+	var expect map[string]string
+	if damaged {
+		expect = DecodeDir(root, dir)
+	}
 	if best != "" && len(garbage) > 0 {
 		sf, err := root.OpenFile(filepath.Join(dir, best), os.O_RDWR, 0640)
 		if err != nil {
@@ -68,13 +124,29 @@ func (r *Runner) Tear(garbage []byte) error {
 		sf.Close()
 	}
 	db, obs := OpenObserved(s.Cfg, root, dir, s.Universe)
-	s.R.Emit(Ev{"e": "image", "lossy": false, "lock": true, "failed": false})
-	s.R.Emit(obs.Event("reopened"))
-	if obs.Err != "" {
-		return fmt.Errorf("tear: %s", obs.Err)
+	if damaged {
+		// the tail lost data: the truth is what a validating reader of the documented format replays (C08)
+		ev := obs.Event("damaged_opened")
+		ev["expect"] = expect
+		s.R.Emit(ev)
+		if obs.Err != "" {
+			return fmt.Errorf("tear: %s", obs.Err)
+		}
+	} else {
+		s.R.Emit(Ev{"e": "image", "lossy": false, "lock": true, "failed": false})
+		s.R.Emit(obs.Event("reopened"))
+		if obs.Err != "" {
+			return fmt.Errorf("tear: %s", obs.Err)
+		}
+		s.R.Emit(Ev{"e": "continue"})
 	}
-	s.R.Emit(Ev{"e": "continue"})
 	s.DB = db
+	if s.WalStates {
+		s.R.Emit(s.WalState("tear", nil))
+		if CurrentHashSeed() != 0 {
+			s.R.Emit(s.IdxState("tear", "", nil))
+		}
+	}
 	return nil
 }
 
@@ -119,3 +191,37 @@ func Diff(rec *Rec, p *Program, base string, seed int64) {
 
 var _ = json.Marshal
 var _ = crashfs.New
+
+// DecodeDir replays every segment file of a directory, oldest first, with the independent decoder.
+func DecodeDir(root pfs.FileSystem, dir string) map[string]string {
+	type sf struct {
+		name string
+		seq  int
+	}
+	var segs []sf
+	for _, n := range segNames(ListDir(root, dir)) {
+		if _, sq, ok := ParseSegmentName(n); ok {
+			segs = append(segs, sf{n, sq})
+		}
+	}
+	sort.Slice(segs, func(i, j int) bool { return segs[i].seq < segs[j].seq })
+	kv := map[string]string{}
+	for _, sg := range segs {
+		raw, err := ReadWhole(root, filepath.Join(dir, sg.name))
+		if err != nil {
+			continue
+		}
+		recs, _, err := DecodeSegment(raw)
+		if err != nil {
+			continue
+		}
+		for _, r := range recs {
+			if r.Del {
+				delete(kv, Token(r.Key))
+			} else {
+				kv[Token(r.Key)] = Token(r.Val)
+			}
+		}
+	}
+	return kv
+}
